@@ -609,6 +609,7 @@ func AddClient(group string, c Client, creds ClientCredentials) (*Group, error) 
 	if err != nil {
 		return nil, err
 	}
+	verifhook.At("group.AddClient.added", g, c)
 
 	g.mu.Lock()
 	defer g.mu.Unlock()
